@@ -128,11 +128,14 @@ pub fn str_text(s: &str) -> String {
 pub struct Printer {
     pub mode: Mode,
     pub out: String,
+    /// when set, `mod { body }` is rendered as `import "<dir>/m<k>.ssl"` and the body text is collected in `files`
+    pub import_dir: Option<String>,
+    pub files: Vec<(String, String)>,
 }
 
 impl Printer {
     pub fn new(mode: Mode) -> Self {
-        Printer { mode, out: String::new() }
+        Printer { mode, out: String::new(), import_dir: None, files: Vec::new() }
     }
 
     fn lit(&mut self, helper: &str, text: &str) {
@@ -316,6 +319,19 @@ impl Printer {
                 self.stms(body);
                 self.out.push_str(" }");
             }
+            E::Mod(body) if self.import_dir.is_some() => {
+                let mut sub = Printer::new(self.mode);
+                sub.import_dir = self.import_dir.clone();
+                // nested modules get their numbers after ours
+                sub.files = std::mem::take(&mut self.files);
+                let path = format!("{}/m{}.ssl", self.import_dir.as_deref().unwrap(), sub.files.len());
+                sub.files.push((path.clone(), String::new()));
+                let slot = sub.files.len() - 1;
+                sub.stms(body);
+                sub.files[slot].1 = std::mem::take(&mut sub.out);
+                self.files = sub.files;
+                let _ = write!(self.out, "import {}", str_text(&path));
+            }
             E::Mod(body) => {
                 self.out.push_str("mod { ");
                 self.stms(body);
@@ -493,6 +509,15 @@ pub fn print_program(body: &[S], mode: Mode) -> String {
     p.out.push_str(PRELUDE);
     p.stms(body);
     p.out
+}
+
+/// the program with every module written as an import of a file; returns (text, files to write)
+pub fn print_program_imports(body: &[S], mode: Mode, dir: &str) -> (String, Vec<(String, String)>) {
+    let mut p = Printer::new(mode);
+    p.import_dir = Some(dir.to_string());
+    p.out.push_str(PRELUDE);
+    p.stms(body);
+    (p.out, p.files)
 }
 
 pub fn print_stm(s: &S, mode: Mode) -> String {
